@@ -4,7 +4,7 @@ import os
 
 LEVEL_NOTE = ("Trusted: Coq 8.16.1 kernel (coqc, full .vo; coqchk in thorough), extraction (ExtrOcamlBasic, "
               "ExtrOcamlNativeString), driver/main.ml binary64 NumOps record and wire syntax, harness generators/"
-              "comparison, xlate/pyxlate.py (source-to-Gallina translator for decision and arithmetic expressions and 17 whole function bodies, re-run and "
+              "comparison, xlate/pyxlate.py (source-to-Gallina translator for decision and arithmetic expressions and 19 whole function bodies, re-run and "
               "re-proved equal to the model on every run), coq/Spec/*.v as transcription of the rules; that binary64 satisfies the number laws is proved "
               "for Coq's primitive floats (NumF) and for exact rationals (NumQ). Axioms per theorem: see evidence (Print Assumptions).")
 
@@ -47,9 +47,11 @@ CHECKS = {
             "every semantic attribute incl. the number of epochs) and invariant under text fields, deme order, migration order and ancestor order; "
             "isclose vs assert_close agreement and sensitivity to single-attribute perturbations are checked on the implementation, also on graphs derived by "
             "rename_demes / in_generations from graphs compared before. The bodies of Epoch.assert_close and AsymmetricMigration.assert_close are translated from the "
-            "current source on every run and proved equal to close_epoch / close_mig."),
+            "current source on every run and proved equal to close_epoch / close_mig; so are isclose_deme_proportions, Deme.assert_close, Pulse.assert_close and "
+            "Graph.assert_close (= close_graph): the whole closeness chain is regenerated from the source."),
     "C11": ("proof", "Coq proof (every time divided, frame unchanged, idempotent, result valid whenever the division is order-preserving on the graph's times) + correspondence; the binary64 cases where division is not order-preserving are known findings",
-            "in_generations is proved to divide every time by the generation time and change nothing else, and to be idempotent given x/1 == x; "
+            "in_generations is proved to divide every time by the generation time and change nothing else, and to be idempotent given x/1 == x; the whole body of "
+            "Graph.in_generations is translated from the current source on every run and proved equal to the model (update-of-a-deep-copy form); "
             "receiver-unchanged and no shared state are checked on the implementation; the result can be invalid on binary64 when the quotient "
             "collapses, overflows or underflows (F12a-c); in exact rational arithmetic the result is proved valid unconditionally, and for binary64 (Coq's primitive floats, NumF) the validity clause is "
             "refuted inside Coq by three evaluated valid graphs whose conversion is invalid (underflow, collapse, overflow) together with the failure of the theorem's hypothesis DivOK on them."),
@@ -90,7 +92,8 @@ CHECKS = {
     "C09": ("translation_validation", "graph -> to_ms -> from_ms compared semantically with the original (coq/Spec/SemEquiv.v) + Coq theorems: round trip of migration rates (composition of the to_ms and from_ms theorems), fixed-point rendering + option print/parse on the implementation",
             "The graph returned by from_ms(to_ms(g, N0), N0, names) is compared with g in generations by the extracted semantic comparer with a tolerance "
             "derived from the ten-decimal rendering of negative growth rates; every kind of option record with awkward finite values is printed, parsed back by "
-            "the library's parser and compared; the fixed-point text is compared digit for digit with coq/Model/FloatStr.v, for which the error bound and sign are proved."),
+            "the library's parser and compared; the fixed-point text is compared digit for digit with coq/Model/FloatStr.v, for which the error bound and sign are proved. "
+            "Coq: round trip of migration rates (ms_round_trip_rates, exact over rationals) and of growth rates on every event prefix (ms_round_trip_growth)."),
     "C17": ("fault_enumeration", "Coq proof of the context-manager / generator state machines (all bodies, all next/close sequences) + fault enumeration on the implementation with builtins.open wrapped",
             "coq/Model/Files.v models _open_file_polymorph and the load_all generator; it is proved that every owned handle is closed on every exit of an "
             "arbitrary body and under every sequence of next()/close() calls, that caller streams are never closed, and that an unstarted generator opens "
